@@ -1,2 +1,3 @@
 import Wl2kVerif.Util.Hex
 import Wl2kVerif.Ops.Secure
+import Wl2kVerif.Ops.PosRep
